@@ -195,8 +195,8 @@ def what(o):
 def run_bind(ctx):
     hx = ctx.go_build("c08")
     quick = ctx.quick()
-    cmd = [hx, "bind", "-seed", str(ctx.seed), "-frac", "0.05" if quick else "1",
-           "-coq", "800" if quick else "8000", "-py", "8000" if quick else "150000"]
+    cmd = [hx, "bind", "-workers", "6", "-seed", str(ctx.seed), "-frac", "0.004" if quick else "1",
+           "-coq", "130" if quick else "8000", "-py", "1500" if quick else "150000"]
     rows = ctx.jsonl(cmd, timeout=1500)
     summary = [r for r in rows if r.get("kind") == "summary"][0]
     cases = [r for r in rows if r.get("kind") in ("case", "mismatch")]
@@ -217,7 +217,7 @@ def run_bind(ctx):
             continue
         terms.append("(C %s %s %s)" % (coq_sig(c["sig"]), coq_call(c["call"]), o))
         refs.append(c)
-    bad_model, bad_spec = par_mismatches(ctx, "c08_bind", HEADER, terms, ["model_ok", "spec_ok"])
+    bad_model, bad_spec = par_mismatches(ctx, "c08_bind", HEADER, terms, ["model_ok", "spec_ok"], shard=40 if quick else 400)
     for i in bad_spec:
         c = refs[i]
         if c["kind"] == "mismatch":
@@ -256,7 +256,7 @@ def run_bind(ctx):
         "evaluations": summary["cases"],
         "distinct_nontrivial": summary["cases"] - summary["dist"].get("star", 0) - summary["dist"].get("dstar", 0) - summary["dist"].get("key", 0),
         "signatures": summary["signatures"],
-        "rule": "all 280 signatures with <=3 positional (required/optional), optional * or *args, <=2 keyword-only (required/optional), optional **kwargs; call sites = 0..4 positional x every subset of the declared ordinary names plus one undeclared name as named arguments (both orders) x with/without *S x with/without **D; S = sequences of length 0-3 or a non-iterable; D = every subset of declared names, two undeclared names and the names of *args/**kwargs, a non-string key, a non-mapping. quick: a seeded 5% sample of the call sites (all S x D for a chosen site); thorough: the full product. Every case executed on the real interpreter and compared with the Go binder; a sample (success cases weighted up) is evaluated against C08.Model and C08.Spec in Coq and executed by CPython 3. distinct_nontrivial = cases that reach setArgs (operand errors excluded).",
+        "rule": "all 280 signatures with <=3 positional (required/optional), optional * or *args, <=2 keyword-only (required/optional), optional **kwargs; call sites = 0..4 positional x every subset of the declared ordinary names plus one undeclared name as named arguments (both orders) x with/without *S x with/without **D; S = sequences of length 0-3 or a non-iterable; D = every subset of declared names, two undeclared names and the names of *args/**kwargs, a non-string key, a non-mapping. quick: a seeded 0.4% sample of the call sites (all S x D for a chosen site); thorough: the full product. Every case executed on the real interpreter and compared with the Go binder; a sample (success cases weighted up) is evaluated against C08.Model and C08.Spec in Coq and executed by CPython 3. distinct_nontrivial = cases that reach setArgs (operand errors excluded).",
         "distribution": summary["dist"], "fraction": summary["frac"],
         "coq_cases": len(terms), "cpython_cases": len(pyc), "cpython_class_compared": py_class_cmp,
         "model_mismatches": len(bad_model), "spec_mismatches": len(bad_spec), "go_binder_mismatches": summary["mismatches"],
@@ -264,9 +264,183 @@ def run_bind(ctx):
     }
 
 
+# ------------------------------------------------------------------ UnpackArgs
+UHEADER = """From Coq Require Import String List Bool Arith ZArith.
+From SV Require Import C08.Model C08.Unpack.
+Import ListNotations.
+Open Scope string_scope.
+Definition P (n : string) (m : marker) (k : tkind) : uparam := Build_uparam n m k.
+Definition A (t : vtype) (n : nat) : arg := Build_arg t n.
+Definition vtype_eqb (a b : vtype) : bool :=
+  match a, b with
+  | TNone, TNone | TBool, TBool | TFloat, TFloat | TString, TString | TList, TList
+  | TDict, TDict | TTuple, TTuple | TFunc, TFunc => true
+  | TInt x, TInt y => Z.eqb x y
+  | _, _ => false
+  end.
+Definition arg_eqb (a b : arg) : bool := vtype_eqb (a_ty a) (a_ty b) && Nat.eqb (a_id a) (a_id b).
+Definition tval_eqb (a b : tval) : bool :=
+  match a, b with Prev x, Prev y => Nat.eqb x y | Stored x, Stored y => arg_eqb x y | _, _ => false end.
+Definition uerr_eqb (a b : uerr) : bool :=
+  match a, b with
+  | UTooManyPositional, UTooManyPositional | UTooFewPositional, UTooFewPositional
+  | UKwargsNotAllowed, UKwargsNotAllowed | UUnexpectedKeyword, UUnexpectedKeyword
+  | UMultipleValues, UMultipleValues => true
+  | UMissing i, UMissing j | UBadArg i, UBadArg j => Nat.eqb i j
+  | _, _ => false
+  end.
+Definition opt_eqb {X} (f : X -> X -> bool) (a b : option X) : bool :=
+  match a, b with Some x, Some y => f x y | None, None => true | _, _ => false end.
+Fixpoint list_eqb {X} (f : X -> X -> bool) (a b : list X) : bool :=
+  match a, b with [], [] => true | x :: r, y :: s => f x y && list_eqb f r s | _, _ => false end.
+Inductive case :=
+| U (ps : list uparam) (args : list arg) (kw : list (string * arg)) (T : list tval) (e : option uerr)
+| PC (min : nat) (kinds : list tkind) (args : list arg) (nkw : nat) (T : list tval) (e : option uerr).
+Definition prevs (n : nat) : list tval := map Prev (seq 0 n).
+Definition kws (n : nat) : list (string * arg) := repeat ("k", A TNone 0) n.
+(* correspondence: the model of UnpackArgs / UnpackPositionalArgs reproduces error and targets *)
+Definition model_ok (c : case) : bool :=
+  match c with
+  | U ps args kw T e =>
+      let r := unpack_args ps args kw (prevs (length ps)) in
+      list_eqb tval_eqb (fst r) T && opt_eqb uerr_eqb (snd r) e
+  | PC min kinds args nkw T e =>
+      let r := unpack_positional min kinds args (kws nkw) (prevs (length kinds)) in
+      list_eqb tval_eqb (fst r) T && opt_eqb uerr_eqb (snd r) e
+  end.
+(* oracle: same error as the per-parameter specification; on success every target
+   holds what the specification designates; a rejected argument's target is untouched *)
+Definition spec_ok (c : case) : bool :=
+  match c with
+  | U ps args kw T e =>
+      let T0 := prevs (length ps) in
+      opt_eqb uerr_eqb (spec_unpack_err ps args kw) e &&
+      match e with
+      | None => forallb (fun j => opt_eqb tval_eqb (nth_error T j) (want ps args kw T0 j)) (seq 0 (length ps))
+      | Some (UBadArg i) => opt_eqb tval_eqb (nth_error T i) (nth_error T0 i)
+      | Some UTooManyPositional => list_eqb tval_eqb T T0
+      | _ => true
+      end
+  | PC min kinds args nkw T e =>
+      let T0 := prevs (length kinds) in
+      opt_eqb uerr_eqb (spec_positional_err min kinds args (kws nkw)) e &&
+      match e with
+      | None => forallb (fun j => opt_eqb tval_eqb (nth_error T j)
+                                    (if Nat.ltb j (length args) then option_map Stored (nth_error args j) else nth_error T0 j))
+                        (seq 0 (length kinds))
+      | Some (UBadArg i) => opt_eqb tval_eqb (nth_error T i) (nth_error T0 i)
+      | _ => list_eqb tval_eqb T T0
+      end
+  end.
+"""
+MARK = {"plain": "MPlain", "opt": "MOpt", "optnone": "MOptNone"}
+KIND = {"value": "KValue", "string": "KString", "bool": "KBool", "int": "KInt", "int8": "KInt8", "float": "KFloat",
+        "list": "KList", "dict": "KDict", "callable": "KCallable", "iterable": "KIterable"}
+VT = {"none": "TNone", "bool": "TBool", "float": "TFloat", "string": "TString", "list": "TList", "dict": "TDict",
+      "tuple": "TTuple", "func": "TFunc"}
+UERR = {"toomany": "UTooManyPositional", "toofew": "UTooFewPositional", "kwargs": "UKwargsNotAllowed",
+        "unexpected": "UUnexpectedKeyword", "multiple": "UMultipleValues"}
+
+
+def coq_arg(a):
+    t = "(TInt (%s)%%Z)" % a["z"] if a["t"] == "int" else VT.get(a["t"])
+    return None if t is None else "(A %s %d)" % (t, a.get("id", 0))
+
+
+def coq_uobs(o):
+    ts = []
+    for j, t in enumerate(o["targets"]):
+        if t is None:
+            ts.append("Prev %d" % j)
+        else:
+            a = coq_arg(t)
+            if a is None:
+                return None
+            ts.append("Stored %s" % a)
+    e = o["err"]
+    if e == "":
+        err = "None"
+    elif e in UERR:
+        err = "(Some %s)" % UERR[e]
+    elif e == "missing":
+        err = "(Some (UMissing %d))" % o["i"]
+    elif e == "badarg":
+        err = "(Some (UBadArg %d))" % o["i"]
+    else:
+        return None
+    return "%s %s" % (clist(ts), err)
+
+
+def ucase_src(c):
+    if c["kind"] == "ucase":
+        return "UnpackArgs(%s) called with args=%s kwargs=%s" % (
+            ", ".join('"%s%s": %s' % (n, {"plain": "", "opt": "?", "optnone": "??"}[m], k) for n, m, k in c.get("ps") or []),
+            json.dumps(c["args"]), json.dumps(c["kw"]))
+    return "UnpackPositionalArgs(min=%d, vars=%s) called with args=%s and %d keyword argument(s)" % (
+        c["min"], c.get("kinds") or [], json.dumps(c["args"]), c["nkw"])
+
+
+def run_unpack(ctx):
+    hx = ctx.go_build("c08")
+    quick = ctx.quick()
+    cmd = [hx, "unpack", "-seed", str(ctx.seed), "-frac", "0.01" if quick else "1", "-coq", "40" if quick else "1500"]
+    if not quick:
+        cmd.append("-full")
+    rows = ctx.jsonl(cmd, timeout=1200)
+    summary = [r for r in rows if r.get("kind") == "usummary"][0]
+    cases = [r for r in rows if r.get("kind") in ("ucase", "pcase")]
+    ctx.log("unpack: %d calls of built-ins (%d parameter lists), %d disagree with the Go specification; %d printed" % (
+        summary["cases"], summary["lists"], summary["mismatches"], len(cases)))
+    terms, refs = [], []
+    for c in cases:
+        fn = "UnpackArgs" if c["kind"] == "ucase" else "UnpackPositionalArgs"
+        if c["mismatch"]:
+            o, g = c["obs"], c["gospec"]
+            clob = o["err"] == "badarg" and o["i"] < len(o["targets"]) and o["targets"][o["i"]] is not None
+            key = "unpack:%s:%s->%s%s" % (fn, g["err"] or "ok", o["err"].split(":")[0] or "ok", ":clobbered" if clob else "")
+            ctx.finding(key, "%s : observed error=%r i=%d targets=%s ; specification error=%r i=%d targets=%s" % (
+                ucase_src(c), o["err"], o["i"], json.dumps(o["targets"]), g["err"], g["i"], json.dumps(g["targets"])), c)
+        o = coq_uobs(c["obs"])
+        args = [coq_arg(a) for a in c["args"]]
+        if o is None or None in args:
+            if not c["mismatch"]:
+                ctx.finding("unpack:%s:other-error" % fn, "%s : unexpected outcome %s" % (ucase_src(c), c["obs"]), c)
+            continue
+        if c["kind"] == "ucase":
+            ps = clist(['(P "%s" %s %s)' % (n, MARK[m], KIND[k]) for n, m, k in c.get("ps") or []])
+            kw = clist(['("%s", %s)' % (k, coq_arg(a)) for k, a in c["kw"]])
+            terms.append("(U %s %s %s %s)" % (ps, clist(args), kw, o))
+        else:
+            terms.append("(PC %d %s %s %d %s)" % (c["min"], clist([KIND[k] for k in c.get("kinds") or []]), clist(args), c["nkw"], o))
+        refs.append(c)
+    bad_model, bad_spec = par_mismatches(ctx, "c08_unpack", UHEADER, terms, ["model_ok", "spec_ok"], shard=40 if quick else 400)
+    for i in bad_spec:
+        c = refs[i]
+        if c["mismatch"]:
+            continue
+        ctx.broken("spec-copies:C08.Unpack-vs-go-spec", "%s : the Coq specification disagrees with the Go specification and the implementation (%s)" % (ucase_src(c), c["obs"]))
+        break
+    only_model = [i for i in bad_model if i not in set(bad_spec)]
+    if only_model:
+        c = refs[only_model[0]]
+        ctx.broken("correspondence:C08.Unpack", "model and implementation differ on %d case(s) where the specification is met, e.g. %s -> %s" % (len(only_model), ucase_src(c), c["obs"]))
+    ctx.log("unpack: %d cases in Coq (model mismatches %d, spec mismatches %d)" % (len(terms), len(bad_model), len(bad_spec)))
+    return {
+        "unpack_evaluations": summary["cases"], "unpack_parameter_lists": summary["lists"], "unpack_kinds": summary["kinds"],
+        "unpack_distribution": summary["dist"], "unpack_fraction": summary["frac"], "unpack_coq_cases": len(terms),
+        "unpack_model_mismatches": len(bad_model), "unpack_spec_mismatches": len(bad_spec),
+        "unpack_go_spec_mismatches": summary["mismatches"],
+        "unpack_rule": "all parameter lists of <=3 parameters x marker (name, name?, name??) x target kind (quick: 6 kinds, a seeded 1% of the lists; thorough: 10 kinds, all lists) x calls with 0..4 positional arguments, every subset of declared names plus an undeclared one as keywords (two orders), with and without a duplicated keyword, argument types drawn (seeded) from None/bool/small int/large int/2^70/float/string/list/dict/tuple/function, half of the time a type the parameter accepts; UnpackPositionalArgs: all kind lists <=3 x min x 0..4 arguments x with/without keywords. Targets are pre-filled with sentinels and read back.",
+        "unpack_samples": [ucase_src(c) + " -> " + json.dumps(c["obs"]) for c in refs[:3]],
+    }
+
+
 def run(ctx):
     ctx.proofs()
     cov = run_bind(ctx)
+    cov.update(run_unpack(ctx))
+    cov["evaluations"] += cov["unpack_evaluations"]
+    cov["distinct_nontrivial"] += cov["unpack_evaluations"]
     return ctx.finish(LEVEL, cov, assumptions=[
         "values are opaque identifiers: binding never inspects a value; evaluation order of argument and default expressions is out of scope",
         "the error class is read from the error message by substring (too many positional / unexpected keyword / multiple values / missing / operand errors)",
